@@ -30,4 +30,10 @@ PROPS["C03"] = dict(configs=["verifnet"], harness="ledger", family="hist", harne
     technique="Coq proof over the ledger/node model + differential correspondence on generated block-tree histories",
     level_text="WORK IN PROGRESS", level_note="WORK IN PROGRESS")
 
+for _pid, _mods in (("C04", ["Check.C04"]), ("C05", ["Spec.WellFormed", "Check.C05"])):
+    PROPS[_pid] = dict(configs=["verifnet"], harness="ledger", family="hist", harness_procs=8, parallel=16,
+        check_mods=HIST_MODS + _mods, corr=_pid.lower() + "_bad_corr", prop=_pid.lower() + "_bad_prop", trusted_extra=HIST_TB,
+        technique="Coq proof over the ledger/node model + differential correspondence on generated block-tree histories",
+        level_text="WORK IN PROGRESS", level_note="WORK IN PROGRESS")
+
 NOT_APPLICABLE = {}
